@@ -201,11 +201,9 @@ func (c *Conn) readHeaderFrom(r io.Reader) (int, error) {
 	}
 
 	length := int(uint32(header[0]) | uint32(header[1])<<8 | uint32(header[2])<<16)
-	if length == 0 {
-		c.sequence++
-		return 0, nil
-	}
 
+	// The sequence id is checked for every frame, including the empty frame
+	// that terminates a payload of a multiple of MaxPacketSize bytes.
 	sequence := uint8(header[3])
 	if sequence != c.sequence {
 		return 0, fmt.Errorf("invalid sequence, expected %v got %v", c.sequence, sequence)
